@@ -1,9 +1,16 @@
 """Rules shared by C08, C11, C18: REGEN-INPUTS, FIND-DIRS, CACHE-REPLAY,
-RESULT-LATTICE, SOURCE-REGISTRATION."""
+RESULT-LATTICE, SOURCE-REGISTRATION.
+
+Every clause is a value-flow, control-dependence or dominance fact
+(sa/facts.py); none compares source text. Names that appear in patterns are
+attribute names, dictionary keys and function names of the repository's own
+interfaces (`seen_paths`, `['find_cache']`, `add_bootstrap`, ...).
+"""
 import ast
 
-from ..cfg import build as build_cfg
 from ..consteval import const_eval
+from ..facts import (Facts, direct, has, has_call, has_const, param_of,
+                     paths)
 from ..index import AnalysisError, unparse, walk_no_nested
 from .. import query as Q
 
@@ -12,122 +19,160 @@ REGEN = 'bfg9000.builtins.regenerate:'
 BUILD = 'bfg9000.build:'
 
 
-def _inside_with(node, pred):
-    n = getattr(node, '_parent', None)
-    while n is not None:
-        if isinstance(n, ast.With) and any(pred(i) for i in n.items):
-            return True
-        n = getattr(n, '_parent', None)
-    return False
+def _facts(ctx):
+    f = getattr(ctx, '_facts', None)
+    if f is None:
+        f = ctx._facts = Facts(ctx.repo)
+    return f
 
 
+def _allocs(atoms, fn=None):
+    """Fresh containers among the atoms (those created in fn, if given)."""
+    pre = 'alloc:' + (fn.qualname + '#' if fn is not None else '')
+    return {a for a in atoms if a.startswith(pre)}
+
+
+def _true(e, kw):
+    v = Q.kwarg(e.call, kw)
+    return isinstance(v, ast.Constant) and v.value is True
+
+
+# --------------------------------------------------------------------------
 def regen_inputs(ctx):
     R = 'REGEN-INPUTS'
-    ctx.rule(R, 'every executed script is recorded (exec inside '
-             'context.push_path, which appends to seen_paths), all of them '
-             'become bootstrap paths, and the regenerate rule of both '
-             'backends depends on bootstrap paths + toolchain file + mopack '
-             'metadata and declares the build file + every immediate file as '
-             'outputs')
-    repo = ctx.repo
-    ex = repo.func(BUILD + '_execute_script')
-    execs = [c for c in Q.calls(ex.node) if unparse(c.func) == 'exec']
-    Q.require(len(execs) == 1, '_execute_script: exec call not found')
-    ok = _inside_with(execs[0], lambda i: unparse(i.context_expr) ==
-                      'context.push_path(path)')
-    ctx.ob(R, '_execute_script|exec-inside-push_path', ok, execs[0],
+    ctx.rule(R, 'every executed script is recorded (exec under '
+             'context.push_path(path), which appends to seen_paths before '
+             'yielding), every recorded path becomes a bootstrap path, and '
+             'the regenerate rule of both backends depends on bootstrap '
+             'paths + toolchain file + mopack metadata and declares the '
+             'build file + every immediate file as outputs')
+    F = _facts(ctx)
+    ex = F.fn(BUILD + '_execute_script')
+    execs = F.effects(ex, lambda e: e.name == 'exec' and isinstance(
+        e.call.func, ast.Name), depth=2)
+    ok = bool(execs) and all(
+        has_call(e.withs(), 'push_path') and param_of(e.withs(), 'path')
+        for e in execs)
+    ctx.ob(R, '_execute_script|exec-inside-push_path', ok, ex.node,
            'the script is executed outside context.push_path(path): it is '
            'not recorded as a regeneration input')
     # the executed code is the file that was opened for `path`
-    ef = repo.func(BUILD + 'execute_file')
-    ok = any(unparse(c) == "open(path.string(context.env.base_dirs), 'r')"
-             for c in Q.calls(ef.node)) and any(
-        unparse(c.func) == '_execute_script' and unparse(c.args[2]) == 'path'
-        for c in Q.calls(ef.node))
+    ef = F.fn(BUILD + 'execute_file')
+    cs = F.calls_to(ef, '_execute_script', depth=1)
+    ok = bool(cs)
+    for e in cs:
+        opened = {a for a in e.arg(0) if 'string(' in a}
+        roots = {a.replace('via:', '').replace('param:', '').split('.')[0]
+                 for a in opened}
+        rec = {a[6:] for a in e.arg(2) if a.startswith('param:')}
+        ok = ok and has_call(e.arg(0), 'open') and bool(roots & rec)
     ctx.ob(R, 'execute_file|same-path-read-and-recorded', ok, ef.node,
            'the path recorded differs from the file that is read')
-    pp = repo.method('bfg9000.builtins.builtin:StackContext', 'push_path')
-    g = build_cfg(pp.node)
-    ap = [g.stmt_of(c) for c in Q.calls(pp.node, nested=False)
-          if unparse(c) == 'self.seen_paths.append(path)']
-    ok = len(ap) == 1 and all(
-        g.dominates(ap[0], g.stmt_of(y)) for y in ast.walk(pp.node)
-        if isinstance(y, ast.Yield))
+    pp = F.fn('bfg9000.builtins.builtin:StackContext.push_path')
+    ys = [n for n in walk_no_nested(pp.node) if isinstance(n, ast.Yield)]
+    ok = bool(ys) and all(F.before(
+        pp, lambda e: e.name == 'append' and has(e.recv(), 'seen_paths') and
+        param_of(e.arg(0), 'path'), y) for y in ys)
     ctx.ob(R, 'StackContext.push_path|records-seen_paths', ok, pp.node,
-           'push_path does not record every pushed path in seen_paths')
-    sub = repo.func('bfg9000.builtins.core:submodule')
-    ok = any(unparse(c.func) == 'build.execute_file' and unparse(
-        c.args[0]) == 'context' for c in Q.calls(sub.node))
+           'push_path does not record every pushed path in seen_paths '
+           'before the script runs')
+    sub = F.fn('bfg9000.builtins.core:submodule')
+    ok = bool(F.calls_to(sub, 'execute_file', depth=1))
     ctx.ob(R, 'submodule|executes-through-execute_file', ok, sub.node,
            'submodule scripts are not executed through execute_file')
-    cb = repo.func(BUILD + 'configure_build')
-    loops = [n for n in walk_no_nested(cb.node) if isinstance(n, ast.For) and
-             any(unparse(c) == 'build.add_bootstrap(i)' for c in Q.calls(n))]
-    ok = len(loops) == 1 and unparse(loops[0].iter) == \
-        'chain(context.seen_paths[1:], opts_paths)'
-    ctx.ob(R, 'configure_build|seen_paths+options->bootstrap', ok, cb.node,
-           'not every executed script (submodules, options.bfg) becomes a '
-           'bootstrap path')
-    bi = repo.method('bfg9000.build_inputs:BuildInputs', '__init__')
-    ok = any(unparse(c) == 'self.add_bootstrap(bfgpath)'
-             for c in Q.calls(bi.node))
+    cb = F.fn(BUILD + 'configure_build')
+    boots = F.calls_to(cb, 'add_bootstrap', depth=1)
+    a = set()
+    for e in boots:
+        a |= e.arg(0)
+    ok = has(a, 'BuildContext()', 'seen_paths')
+    ctx.ob(R, 'configure_build|build-script-seen_paths->bootstrap', ok,
+           cb.node, 'not every script executed for build.bfg (submodules) '
+           'becomes a bootstrap path')
+    ok = has(a, 'OptionsContext()', 'seen_paths')
+    ctx.ob(R, 'configure_build|options-seen_paths->bootstrap', ok, cb.node,
+           'options.bfg (and its submodules) do not become bootstrap paths')
+    bi = F.fn('bfg9000.build_inputs:BuildInputs.__init__')
+    ok = any(param_of(e.arg(0), 'bfgpath')
+             for e in F.calls_to(bi, 'add_bootstrap', depth=1))
     ctx.ob(R, 'BuildInputs.__init__|build.bfg-is-bootstrap', ok, bi.node,
            'the main build.bfg is not a bootstrap path')
-    eo = repo.func(BUILD + '_execute_options')
-    rets = [unparse(r.value) for r in Q.returns(eo.node)]
-    ctx.ob(R, '_execute_options|returns-seen_paths',
-           '(parser, context.seen_paths)' in rets, eo.node,
-           'options.bfg (and its submodules) are not reported as executed')
-    inp = repo.func(REGEN + '_inputs')
-    r = Q.returns(inp.node)
-    t = unparse(r[-1].value) if r else ''
-    ok = 'build_inputs.bootstrap_paths' in t and \
-        'listify(env.toolchain.path)' in t and 'extra' in t
-    ctx.ob(R, '_inputs|bootstrap+toolchain+mopack', ok, inp.node,
-           'regeneration inputs are {}'.format(t))
-    ok = any("env.tool('mopack').metadata_file" in unparse(v) for v in
-             Q.local_assignments(inp.node, 'extra') if v is not None)
+    ab = F.fn('bfg9000.build_inputs:BuildInputs.add_bootstrap')
+    ok = any(e.name in ('append', 'add', 'insert') and has(
+        e.recv(), 'bootstrap_paths') and param_of(e.all_args(), 'path')
+        for e in F.effects(ab, lambda e: True, depth=1))
+    ctx.ob(R, 'BuildInputs.add_bootstrap|stores', ok, ab.node,
+           'add_bootstrap does not record the path')
+    inp = F.fn(REGEN + '_inputs')
+    r = F.returns(inp)
+    ok = has(r, 'bootstrap_paths') and has(r, 'toolchain', 'path')
+    ctx.ob(R, '_inputs|bootstrap+toolchain', ok, inp.node,
+           'regeneration inputs lack bootstrap paths or the toolchain file')
+    ok = has(r, "tool('mopack')", 'metadata_file')
     ctx.ob(R, '_inputs|mopack-metadata', ok, inp.node,
            'mopack metadata file is not a regeneration input')
-    outp = repo.func(REGEN + '_outputs')
-    t = unparse(Q.returns(outp.node)[0].value)
-    ok = 'list_backends()[env.backend].filepath' in t and \
-        "build_inputs['regenerate'].outputs" in t
+    outp = F.fn(REGEN + '_outputs')
+    r = F.returns(outp)
+    ok = has(r, 'list_backends()', 'filepath') and \
+        has(r, "['regenerate']", 'outputs', 'path')
     ctx.ob(R, '_outputs|build-file+immediate-files', ok, outp.node,
-           'regeneration outputs are {}'.format(t))
-    mif = repo.func('bfg9000.builtins.file_types:make_immediate_file')
-    ok = any(unparse(c) == "context.build['regenerate'].outputs.append(file)"
-             for c in Q.calls(mif.node))
+           'regeneration outputs lack the build file or the files written '
+           'at configure time')
+    mif = F.fn('bfg9000.builtins.file_types:make_immediate_file')
+    ok = any(e.name in ('append', 'add') and has(
+        e.recv(), "['regenerate']", 'outputs') and param_of(
+            e.all_args(), 'file')
+        for e in F.effects(mif, lambda e: True, depth=1))
     ctx.ob(R, 'make_immediate_file|registers-output', ok, mif.node,
            'files written at configure time are not declared as outputs of '
            'the regeneration step')
-    for fq, call, okw, ikw in (
-            (REGEN + 'make_regenerate_rule', 'make.multitarget_rule',
-             'targets', 'deps'),
-            (REGEN + 'ninja_regenerate_rule', 'buildfile.build', 'output',
-             'implicit')):
-        f = repo.func(fq)
-        hit = [c for c in Q.calls(f.node) if unparse(c.func) == call and
-               unparse(Q.kwarg(c, okw) or ast.Constant(0)) ==
-               '_outputs(build_inputs, env)']
-        ok = len(hit) == 1 and unparse(Q.kwarg(hit[0], ikw)) == \
-            '_inputs(build_inputs, env)'
+    for fq, okws, ikws in (
+            (REGEN + 'make_regenerate_rule', ('targets', 'target'),
+             ('deps',)),
+            (REGEN + 'ninja_regenerate_rule', ('output', 'outputs'),
+             ('implicit', 'inputs'))):
+        f = F.fn(fq)
+        rules = F.effects(f, lambda e: any(
+            has_call(e.arg(kw=k), '_outputs') for k in okws), depth=0)
+        ok = bool(rules) and all(any(has_call(e.arg(kw=k), '_inputs')
+                                     for k in ikws) for e in rules)
         ctx.ob(R, fq.split(':')[1] + '|uses-_inputs/_outputs', ok, f.node,
-               'the regenerate rule does not use _inputs/_outputs')
-        ok = any("bfg9000('regenerate', lazy=True)" in unparse(c)
-                 for c in Q.calls(f.node))
-        ctx.ob(R, fq.split(':')[1] + '|runs-regenerate', ok, f.node,
-               'the regenerate rule does not run `bfg9000 regenerate`')
-    f = repo.func(REGEN + 'ninja_regenerate_rule')
-    ok = any(unparse(Q.kwarg(c, 'generator') or ast.Constant(0)) == 'True'
-             and unparse(Q.kwarg(c, 'depfile') or ast.Constant(0)) ==
-             "build_inputs['regenerate'].depfile"
-             for c in Q.calls(f.node) if unparse(c.func) == 'buildfile.rule'
-             and unparse(Q.kwarg(c, 'name') or ast.Constant(0)) ==
-             "'regenerate'")
+               'the edge that produces the regeneration outputs does not '
+               'depend on the regeneration inputs')
+        allf = F.effects(f, lambda e: True, depth=1)
+        regen = [e for e in allf if has(e.heads(), "tool('bfg9000')") and
+                 e.call.args and isinstance(e.call.args[0], ast.Constant)
+                 and e.call.args[0].value == 'regenerate']
+        ok = bool(regen) and all(_true(e, 'lazy') for e in regen)
+        used = False
+        for e in allf:
+            for k in ('recipe', 'command'):
+                if any("tool('bfg9000')('regenerate'" in a
+                       for a in e.arg(kw=k)):
+                    used = True
+        ctx.ob(R, fq.split(':')[1] + '|runs-regenerate', ok and used, f.node,
+               'the regenerate rule does not run `bfg9000 regenerate` '
+               '(lazy)')
+    f = F.fn(REGEN + 'ninja_regenerate_rule')
+    rr = F.effects(f, lambda e: e.kw_const('name') == 'regenerate', depth=1)
+    ok = bool(rr) and all(_true(e, 'generator') and has(
+        e.arg(kw='depfile'), "['regenerate']", 'depfile') for e in rr)
     ctx.ob(R, 'ninja_regenerate_rule|generator+depfile', ok, f.node,
            'ninja regenerate rule is not a generator rule with the find '
            'depfile')
+
+
+# --------------------------------------------------------------------------
+def _find_dirs_update(F, fn):
+    """(update effects on build['find_dirs'], alloc atoms handed to
+    _find_files as seen_dirs)."""
+    ups = [e for e in F.effects(fn, lambda e: e.name in (
+        'update', 'add', 'extend'), depth=1)
+        if has(e.recv(), "['find_dirs']")]
+    walked = set()
+    for e in F.calls_to(fn, '_find_files', depth=1):
+        walked |= _allocs(e.arg(2, kw='seen_dirs'))
+    return ups, walked
 
 
 def find_dirs(ctx):
@@ -136,53 +181,54 @@ def find_dirs(ctx):
              'find_dirs, the depfile is requested, both backends write the '
              'depfile from find_dirs, Make includes it and Ninja names it as '
              'the regenerate rule\'s depfile')
-    repo = ctx.repo
-    ff = repo.func(FIND + '_find_files')
-    loops = [n for n in walk_no_nested(ff.node) if isinstance(n, ast.For) and
-             'walk(' in unparse(n.iter)]
-    ok = len(loops) == 1 and isinstance(loops[0].body[0], ast.If) and \
-        unparse(loops[0].body[0].test) == 'seen_dirs is not None' and \
-        unparse(loops[0].body[0].body[0]) == 'seen_dirs.append(base)'
+    F = _facts(ctx)
+    ff = F.fn(FIND + '_find_files')
+    aps = [e for e in F.effects(ff, lambda e: e.name == 'append', depth=0)
+           if param_of(e.recv(), 'seen_dirs')]
+    ok = bool(aps) and all(has_call(e.arg(0), 'walk') for e in aps) and all(
+        all(param_of(F.atoms(t, ff), 'seen_dirs')
+            for t in F.guards(e.call, ff)) for e in aps) and all(
+        any(isinstance(l, ast.For) and has_call(F.atoms(l.iter, ff), 'walk')
+            for l in e.loops()) for e in aps)
     ctx.ob(R, '_find_files|every-walked-dir-recorded', ok, ff.node,
            'walked directories are not all recorded in seen_dirs')
-    fff = repo.func(FIND + 'find_from_filter')
-    ok = any(unparse(c) == "context.build['find_dirs'].update(seen_dirs)" and
-             _under_if(c, 'cache') for c in Q.calls(fff.node))
+    fff = F.fn(FIND + 'find_from_filter')
+    ups, walked = _find_dirs_update(F, fff)
+    ok = bool(walked) and any(_allocs(e.all_args()) & walked for e in ups)
     ctx.ob(R, 'find_from_filter|find_dirs.update', ok, fff.node,
-           'walked directories of a cached search are not added to '
-           'find_dirs')
-    ok = any(unparse(c.func) == '_find_files' and len(c.args) == 3 and
-             unparse(c.args[2]) == 'seen_dirs' for c in Q.calls(fff.node))
-    ctx.ob(R, 'find_from_filter|passes-seen_dirs', ok, fff.node,
-           'seen_dirs is not passed to the walk')
-    fcc = repo.func(FIND + 'find_check_cache')
-    ok = any(unparse(c) == "context.build['find_dirs'].update(seen_dirs)"
-             for c in Q.calls(fcc.node))
+           'the directories walked by a cached search (the list handed to '
+           '_find_files) are not added to find_dirs')
+    fcc = F.fn(FIND + 'find_check_cache')
+    ups, walked = _find_dirs_update(F, fcc)
+    ok = bool(walked) and any(_allocs(e.all_args()) & walked for e in ups)
     ctx.ob(R, 'find_check_cache|find_dirs.update', ok, fcc.node,
            'directories walked by the cache re-check are not recorded')
-    f = repo.func(FIND + 'find_files')
-    ok = any(isinstance(n, ast.Assign) and unparse(n.targets[0]) ==
-             "context.build['regenerate'].depfile" and unparse(n.value) ==
-             'depfile_name' and _under_if(n, 'cache')
-             for n in ast.walk(f.node))
+    f = F.fn(FIND + 'find_files')
+    ok = any(has(t, "['regenerate']", 'depfile') and has(v, 'depfile_name')
+             and param_of(F.control(n, f), 'cache')
+             for t, v, n in F.stores(f))
     ctx.ob(R, 'find_files|requests-depfile', ok, f.node,
            'a cached find_files does not request the directory depfile')
+    wds = {}
     for b, fq in (('make', FIND + 'make_find_dirs'),
                   ('ninja', FIND + 'ninja_find_dirs')):
-        h = repo.func(fq)
-        wd = [c for c in Q.calls(h.node) if unparse(c.func) ==
-              'write_depfile']
-        ok = len(wd) == 1 and unparse(wd[0].args[1]) == \
-            'Path(depfile_name)' and unparse(wd[0].args[2]) == \
-            b + '.filepath' and unparse(wd[0].args[3]) == \
-            "build_inputs['find_dirs']"
+        h = F.fn(fq)
+        wd = F.calls_to(h, 'write_depfile', depth=1)
+        wds[b] = wd
+        ok = bool(wd) and all(
+            has(e.arg(1, kw='path'), 'depfile_name') and
+            has(e.arg(2, kw='output'), 'filepath') and
+            has(e.arg(3, kw='seen_dirs'), "['find_dirs']") for e in wd)
         ctx.ob(R, fq.split(':')[1] + '|writes-depfile-from-find_dirs', ok,
                h.node, 'the depfile is not written for the build file from '
                'find_dirs')
         if b == 'make':
-            ok = any(unparse(c) == 'buildfile.include(depfile_name)'
-                     for c in Q.calls(h.node)) and Q.kwarg(
-                         wd[0], 'makeify') is not None
+            inc = [e for e in F.calls_to(h, 'include', depth=1)
+                   if has(e.all_args(), 'depfile_name')]
+            ok = bool(inc) and bool(wd) and all(
+                _true(e, 'makeify') or (len(e.call.args) > 4 and isinstance(
+                    e.call.args[4], ast.Constant) and
+                    e.call.args[4].value is True) for e in wd)
             ctx.ob(R, 'make_find_dirs|include+makeify', ok, h.node,
                    'Make does not include the depfile (with empty rules '
                    'for deleted directories)')
@@ -190,14 +236,13 @@ def find_dirs(ctx):
     # directories must either force a regeneration or be written to the
     # depfile before the run is aborted -- otherwise a directory created
     # since the last run is never watched
-    rw = [n for n in ast.walk(fcc.node) if isinstance(n, ast.Assign) and
-          unparse(n.targets[0]) == 'regenerate' and isinstance(
-              n.value, ast.BoolOp)]
-    in_decision = any('seen_dirs' in unparse(n.value) or 'find_dirs' in
-                      unparse(n.value) for n in rw)
-    raises = [n for n in ast.walk(fcc.node) if isinstance(n, ast.Raise)]
-    rewrites = [c for c in Q.calls(fcc.node) if unparse(c.func) ==
-                'write_depfile']
+    _, walked = _find_dirs_update(F, fcc)
+    raises = [n for n in walk_no_nested(fcc.node) if isinstance(n, ast.Raise)]
+    ctl = set()
+    for n in raises:
+        ctl |= F.control(n, fcc)
+    in_decision = bool(_allocs(ctl) & walked) or has(ctl, "['find_dirs']")
+    rewrites = F.calls_to(fcc, 'write_depfile', depth=2)
     ctx.ob(R, 'find_check_cache|new-directories-tracked-when-skipping',
            in_decision or bool(rewrites), fcc.node,
            'the directories found by the lazy re-check are neither compared '
@@ -209,151 +254,186 @@ def find_dirs(ctx):
     # recipe. The regenerate rule goes through multitarget_rule, which moves
     # the recipe to `<first output>.stamp` as soon as there is more than one
     # output (any immediate file, e.g. a .pc file).
-    mrr = repo.func(REGEN + 'make_regenerate_rule')
-    via_multi = any(unparse(c.func) == 'make.multitarget_rule' and unparse(
-        Q.kwarg(c, 'targets') or ast.Constant(0)) ==
-        '_outputs(build_inputs, env)' for c in Q.calls(mrr.node))
-    mfd = repo.func(FIND + 'make_find_dirs')
-    wd_ = [c for c in Q.calls(mfd.node) if unparse(c.func) == 'write_depfile']
-    const_target = bool(wd_) and unparse(wd_[0].args[2]) == 'make.filepath'
+    mrr = F.fn(REGEN + 'make_regenerate_rule')
+    via_multi = any(has_call(e.arg(kw='targets'), '_outputs') or has_call(
+        e.arg(1), '_outputs')
+        for e in F.calls_to(mrr, 'multitarget_rule', depth=1))
+    mfd = F.fn(FIND + 'make_find_dirs')
+    # the depfile's target is a fixed name: it depends on nothing the
+    # regeneration outputs are computed from
+    const_target = bool(wds['make']) and all(
+        has(e.arg(2, kw='output'), 'filepath') and not any(
+            'build_inputs' in a or 'param:' in a or '_outputs' in a
+            for a in e.arg(2, kw='output'))
+        for e in wds['make'])
     ctx.ob(R, 'make_find_dirs|depfile-target-carries-the-recipe',
            not (via_multi and const_target), mfd.node,
            'the depfile names `Makefile` as the target that depends on the '
            'searched directories, but with more than one regeneration '
            'output the recipe sits on `Makefile.stamp` (multitarget_rule): '
            'a directory change then never triggers a regeneration')
-    wdf = repo.func(FIND + 'write_depfile')
-    loops = [n for n in walk_no_nested(wdf.node) if isinstance(n, ast.For)
-             and unparse(n.iter) == 'seen_dirs']
-    ctx.ob(R, 'write_depfile|all-dirs', len(loops) >= 1, wdf.node,
-           'the depfile does not list every seen directory')
+    wdf = F.fn(FIND + 'write_depfile')
+    ws = [e for e in F.effects(wdf, lambda e: e.name in ('write',
+                                                         'write_each'),
+                               depth=1)
+          if has(e.all_args(), 'Syntax', 'dependency')]
+    ws = [e for e in ws if has(e.arg(0), 'seen_dirs')]
+    ok = bool(ws) and any(not F.guards(e.call, e.fn) and not e.outer
+                          for e in ws)
+    ctx.ob(R, 'write_depfile|all-dirs', ok, wdf.node,
+           'the depfile does not list every seen directory as a '
+           'prerequisite')
 
 
-def _under_if(node, test_text):
-    n = getattr(node, '_parent', None)
-    while n is not None:
-        if isinstance(n, ast.If) and unparse(n.test) == test_text:
-            return True
-        n = getattr(n, '_parent', None)
-    return False
+# --------------------------------------------------------------------------
+def _registrations(F, f):
+    """Calls that create file objects for found paths: the callee comes out
+    of the caller's type tables."""
+    found, extra = [], []
+    for e in F.effects(f, lambda e: Q.kwarg(e.call, 'dist') is not None or
+                       isinstance(e.call.func, ast.Subscript), depth=1):
+        h = e.heads()
+        if has(h, "['auto_file']") or any(x in ('file_type', 'dir_type')
+                                          for x in h):
+            found.append(e)
+        elif has(h, "['generic_file']"):
+            extra.append(e)
+    return found, extra
 
 
 def cache_replay(ctx, check_order=False):
     R = 'CACHE-REPLAY'
     ctx.rule(R, 'the cache-hit path of find_from_filter replays every '
              'field of a FindCacheEntry that the miss path records: found '
-             'entries through `types`, extra (not_now) entries through '
-             '`extra_types`, both with the caller\'s dist flag')
+             'entries through the caller\'s file/dir types, extra (not_now) '
+             'entries as generic files/directories, both with the caller\'s '
+             'dist flag')
     repo = ctx.repo
+    F = _facts(ctx)
     fc = repo.cls(FIND + 'FindCache')
     nt = fc.attrs.get('FindCacheEntry')
     Q.require(nt is not None and isinstance(nt, ast.Call),
               'FindCache.FindCacheEntry namedtuple not found')
     fields = const_eval(repo, fc.module, nt.args[1])
     Q.require(isinstance(fields, list) and fields, 'FindCacheEntry fields')
-    f = repo.func(FIND + 'find_from_filter')
-    # split: statements of the `if cache:` block that contains the try with
-    # `except KeyError` (hit path) vs. the rest (miss path)
-    hit_block = None
-    for st in f.node.body:
-        if isinstance(st, ast.If) and unparse(st.test) == 'cache' and any(
-                isinstance(s, ast.Try) for s in st.body):
-            hit_block = st
-    Q.require(hit_block is not None, 'find_from_filter: cache-hit block not '
-              'found')
-    tries = [s for s in hit_block.body if isinstance(s, ast.Try)]
-    ok = any(unparse(h.type) == 'KeyError' for t in tries
-             for h in t.handlers if h.type is not None)
-    ctx.ob(R, 'find_from_filter|miss-falls-through-on-KeyError', ok,
-           hit_block, 'a cache miss is not detected by KeyError')
-    hit_attrs = {n.attr for n in ast.walk(hit_block)
-                 if isinstance(n, ast.Attribute)}
-    idx_used = {n.slice.value for n in ast.walk(hit_block)
-                if isinstance(n, ast.Subscript) and isinstance(
-                    n.slice, ast.Constant) and isinstance(
-                        n.slice.value, int)}
-    for i, fld in enumerate(fields):
-        ctx.ob(R, 'find_from_filter|hit-path-replays|' + fld,
-               fld in hit_attrs or i in idx_used, hit_block,
-               'the cache-hit path never reads FindCacheEntry.{}: entries '
-               'recorded as {} on the first run are not registered again '
-               'after a lazy regeneration'.format(fld, fld))
+    f = F.fn(FIND + 'find_from_filter')
+    found, extra = _registrations(F, f)
+    regs = found + extra
 
-    def reg_calls(scope, table):
-        out = []
-        for n in ast.walk(scope):
-            if isinstance(n, ast.Call) and isinstance(
-                    n.func, ast.Subscript) and unparse(
-                        n.func.value) == table:
-                out.append(n)
-        return out
-    for table, what in (('types', 'found'), ('extra_types', 'extra')):
-        hit = reg_calls(hit_block, table)
-        miss = [c for st in f.node.body if st is not hit_block
-                for c in reg_calls(st, table)]
-        ctx.ob(R, 'find_from_filter|miss-path-registers|' + table,
-               bool(miss) and all(unparse(Q.kwarg(c, 'dist') or
-                                          ast.Constant(0)) == 'dist'
-                                  for c in miss), f.node,
+    def from_cache(e, fld=None):
+        a = e.arg(0)
+        return has(a, "['find_cache']", fld) if fld else has(
+            a, "['find_cache']")
+
+    def from_walk(e):
+        return has_call(e.arg(0), '_find_files')
+
+    for i, fld in enumerate(fields):
+        ok = any(from_cache(e, fld) for e in regs)
+        ctx.ob(R, 'find_from_filter|hit-path-replays|' + fld, ok, f.node,
+               'the cache-hit path never registers FindCacheEntry.{}: '
+               'entries recorded as {} on the first run are not registered '
+               'again after a lazy regeneration'.format(fld, fld))
+    for what, effs, fld in (('found', found, 'found'),
+                            ('extra', extra, 'extra')):
+        hit = [e for e in effs if from_cache(e)]
+        miss = [e for e in effs if from_walk(e)]
+        ctx.ob(R, 'find_from_filter|miss-path-registers|' + what,
+               bool(miss) and all(param_of(direct(e.arg(kw='dist')), 'dist')
+                                  for e in miss), f.node,
                'the miss path does not register {} entries with the '
                'caller\'s dist'.format(what))
-        ctx.ob(R, 'find_from_filter|hit-path-registers|' + table,
-               bool(hit) and all(unparse(Q.kwarg(c, 'dist') or
-                                         ast.Constant(0)) == 'dist'
-                                 for c in hit), hit_block,
-               'the cache-hit path does not register {} entries (through '
-               '`{}`) with the caller\'s dist'.format(what, table))
+        ctx.ob(R, 'find_from_filter|hit-path-registers|' + what,
+               bool(hit) and all(param_of(direct(e.arg(kw='dist')), 'dist')
+                                 for e in hit) and all(
+                   from_cache(e, fld) for e in hit), f.node,
+               'the cache-hit path does not register {} entries (from '
+               'FindCacheEntry.{}) with the caller\'s dist'.format(
+                   what, fld))
+    # the hit path is taken only for cached searches and a miss is detected
+    hit = [e for e in regs if from_cache(e)]
+    ok = bool(hit) and all(param_of(e.control(), 'cache') for e in hit)
+    ctx.ob(R, 'find_from_filter|hit-path-only-when-cache', ok, f.node,
+           'cached results are replayed although cache=False')
     # order: the miss path registers found and extra entries interleaved, in
     # walk order, in ONE loop; the registration order is the order of the
     # dist file list. The hit path reproduces it only if it also registers
     # from one ordered sequence.
-    hit_loops = [n for n in ast.walk(hit_block) if isinstance(
-        n, (ast.For, ast.ListComp, ast.GeneratorExp)) and (
-            reg_calls(n, 'types') or reg_calls(n, 'extra_types'))]
-    outer = [n for n in hit_loops if not any(
-        m is not n and any(x is n for x in ast.walk(m)) for m in hit_loops)]
-    single = len(outer) == 1 and reg_calls(outer[0], 'types') and \
-        reg_calls(outer[0], 'extra_types')
     if check_order:
+        hf = [e for e in found if from_cache(e)]
+        hx = [e for e in extra if from_cache(e)]
+        single = any(set(map(id, a.loops())) & set(map(id, b.loops()))
+                     for a in hf for b in hx)
         ctx.ob(R, 'find_from_filter|hit-path-keeps-registration-order',
-           bool(single), hit_block,
-           'the cache keeps found and extra entries in two separate lists '
-           'and the hit path registers them in two passes: after a lazy '
-           'regeneration the sources (dist file list) are ordered '
-           'differently from a fresh configure, which registers them '
-           'interleaved in walk order')
+               bool(single), f.node,
+               'the cache keeps found and extra entries in two separate '
+               'lists and the hit path registers them in two passes: after '
+               'a lazy regeneration the sources (dist file list) are '
+               'ordered differently from a fresh configure, which registers '
+               'them interleaved in walk order')
     # the miss path records both lists in the cache
-    adds = [c for c in Q.calls(f.node) if unparse(c.func) ==
-            "context.build['find_cache'].add"]
-    ok = len(adds) == 1 and [unparse(a) for a in adds[0].args] == [
-        'file_filter', 'found', 'extra']
-    ctx.ob(R, 'find_from_filter|records-found-and-extra', ok, f.node,
-           'the miss path does not record (file_filter, found, extra)')
-    # the two type tables
-    t1 = [unparse(v) for v in Q.local_assignments(f.node, 'types')
-          if v is not None]
-    t2 = [unparse(v) for v in Q.local_assignments(f.node, 'extra_types')
-          if v is not None]
-    ctx.ob(R, 'find_from_filter|extra-registered-as-generic', t2 == [
-        "{'f': context['generic_file'], 'd': context['directory']}"], f.node,
-        'not_now entries are not registered as plain files/directories')
-    # find_check_cache refills the cache with both lists
-    fcc = repo.func(FIND + 'find_check_cache')
-    adds = [c for c in Q.calls(fcc.node) if unparse(c.func) ==
-            "context.build['find_cache'].add"]
-    ok = len(adds) == 1 and [unparse(a) for a in adds[0].args] == [
-        'file_filter', 'found', 'extra']
-    ctx.ob(R, 'find_check_cache|refills-found-and-extra', ok, fcc.node,
-           'the lazy re-check does not refill both lists')
-    # (de)serialisation keeps both lists
-    tj = repo.method(FIND + 'FindCache', 'to_json')
-    ok = 'for matches in cache' in unparse(tj.node)
-    ctx.ob(R, 'FindCache.to_json|all-fields', ok, tj.node,
+    for fn_, key in ((f, 'find_from_filter|records-found-and-extra'),
+                     (F.fn(FIND + 'find_check_cache'),
+                      'find_check_cache|refills-found-and-extra')):
+        adds = [e for e in F.calls_to(fn_, 'add', depth=1)
+                if has(e.recv(), "['find_cache']")]
+        apps = F.effects(fn_, lambda e: e.name == 'append', depth=2)
+
+        def filled_under(alloc, member):
+            return any(alloc & _allocs(e.recv()) and has_call(
+                e.arg(0), '_find_files') and any(
+                    op == 'Eq' and (has(l, 'FindResult', member) or
+                                    has(r_, 'FindResult', member))
+                    for op, l, r_ in F.guard_compares(e.call, e.fn))
+                for e in apps)
+        ok = bool(adds)
+        for e in adds:
+            a1, a2 = _allocs(e.arg(1, kw='found')), _allocs(
+                e.arg(2, kw='extra'))
+            # containers reachable from only one of the two arguments
+            a1, a2 = a1 - a2, a2 - a1
+            ok = ok and bool(a1) and bool(a2) and \
+                filled_under(a1, 'include') and filled_under(a2, 'not_now') \
+                and not filled_under(a1, 'not_now') and \
+                not filled_under(a2, 'include')
+        ctx.ob(R, key, ok, fn_.node,
+               'the walk does not record (filter, included paths, not_now '
+               'paths) in the find cache')
+    # not_now entries become plain files / directories
+    ok = bool(extra) and all(
+        not has(e.heads(), "['auto_file']") and not any(
+            x in ('file_type', 'dir_type') for x in e.heads())
+        for e in extra)
+    ctx.ob(R, 'find_from_filter|extra-registered-as-generic', ok, f.node,
+           'not_now entries are not registered as plain files/directories')
+    # (de)serialisation keeps every field
+    tj = F.fn(FIND + 'FindCache.to_json')
+    r = F.returns(tj)
+    sliced = any(isinstance(n, ast.Subscript) for n in ast.walk(tj.node))
+    ctx.ob(R, 'FindCache.to_json|all-fields',
+           has(r, '_cache', 'to_json()') and not sliced, tj.node,
            'the cache file does not contain every field of an entry')
-    fj = repo.method(FIND + 'FindCache', 'from_json')
-    ok = 'FindCacheEntry._make(' in unparse(fj.node) and \
-        'for matches in v' in unparse(fj.node)
-    ctx.ob(R, 'FindCache.from_json|all-fields', ok, fj.node, '')
+    fj = F.fn(FIND + 'FindCache.from_json')
+    cs = [e for e in F.effects(fj, lambda e: e.name in (
+        '_make', 'FindCacheEntry'), depth=0)]
+    ok = bool(cs) and all(has_call(e.all_args(), 'from_json') and
+                          param_of(e.all_args(), 'data') for e in cs)
+    ctx.ob(R, 'FindCache.from_json|all-fields', ok, fj.node,
+           'entries are not rebuilt from every saved list')
+
+
+# --------------------------------------------------------------------------
+def _enum_order(ctx, R, cls_fq, order, label):
+    repo = ctx.repo
+    c = repo.cls(cls_fq)
+    vals = {k: const_eval(repo, c.module, v) for k, v in c.attrs.items()}
+    ok = all(k in vals for k in order) and \
+        [vals[k] for k in order] == sorted(vals[k] for k in order) and \
+        len({vals[k] for k in order}) == len(order)
+    ctx.ob(R, label + '|order', ok, c.node,
+           '{} values are {}'.format(label, {k: vals.get(k)
+                                             for k in order}))
+    return c
 
 
 def result_lattice(ctx):
@@ -362,136 +442,183 @@ def result_lattice(ctx):
              '< exclude < exclude_recursive (yes < no < never), & is max and '
              '| is min; the walk prunes only on exclude_recursive; only '
              'include results are returned, only not_now results go to the '
-             'distribution-only registration')
-    repo = ctx.repo
-    fr = repo.cls(FIND + 'FindResult')
-    vals = {k: const_eval(repo, fr.module, v) for k, v in fr.attrs.items()}
-    order = ['include', 'not_now', 'exclude', 'exclude_recursive']
-    ok = all(k in vals for k in order) and \
-        [vals[k] for k in order] == sorted(vals[k] for k in order) and \
-        len({vals[k] for k in order}) == 4
-    ctx.ob(R, 'FindResult|order', ok, fr.node,
-           'FindResult values are {}'.format(vals))
-    a = fr.methods.get('__and__')
-    o = fr.methods.get('__or__')
-    ok = a is not None and 'max(self.value, rhs.value)' in unparse(a)
-    ctx.ob(R, 'FindResult.__and__|max', ok, a, '& is not the maximum '
-           '(most exclusive) of the two results')
-    ok = o is not None and 'min(self.value, rhs.value)' in unparse(o)
-    ctx.ob(R, 'FindResult.__or__|min', ok, o, '| is not the minimum')
-    b = fr.methods.get('__bool__')
-    ok = b is not None and 'self == self.include' in unparse(b)
-    ctx.ob(R, 'FindResult.__bool__|include-only', ok, b,
+             'distribution-only registration; exclude patterns take '
+             'precedence over include patterns over extra patterns')
+    F = _facts(ctx)
+    _enum_order(ctx, R, FIND + 'FindResult',
+                ['include', 'not_now', 'exclude', 'exclude_recursive'],
+                'FindResult')
+    _enum_order(ctx, R, 'bfg9000.glob:PathGlob.Result',
+                ['yes', 'no', 'never'], 'PathGlob.Result')
+    for cls, label in ((FIND + 'FindResult', 'FindResult'),
+                       ('bfg9000.glob:PathGlob.Result', 'PathGlob.Result')):
+        for meth, agg in (('__and__', 'max'), ('__or__', 'min')):
+            m = F.fn(cls + '.' + meth)
+            r = F.returns(m)
+            other = 'min' if agg == 'max' else 'max'
+            ok = has_call(r, agg) and not has_call(r, other) and \
+                has(r, 'self', 'value') and has(
+                    r, Q.params(m.node)[1], 'value')
+            ctx.ob(R, '{}.{}|{}'.format(label, meth, agg), ok, m.node,
+                   '{} is not the {} of the two results'.format(meth, agg))
+    b = F.fn(FIND + 'FindResult.__bool__')
+    ok = has(F.returns(b), 'include') and any(
+        isinstance(n, ast.Compare) and isinstance(n.ops[0], (ast.Eq, ast.Is))
+        for n in ast.walk(b.node))
+    ctx.ob(R, 'FindResult.__bool__|include-only', ok, b.node,
            'truthiness is not "== include"')
-    pr = repo.cls('bfg9000.glob:PathGlob.Result')
-    vals = {k: const_eval(repo, pr.module, v) for k, v in pr.attrs.items()}
-    order = ['yes', 'no', 'never']
-    ok = all(k in vals for k in order) and [vals[k] for k in order] == \
-        sorted(vals[k] for k in order) and len({vals[k] for k in order}) == 3
-    ctx.ob(R, 'PathGlob.Result|order', ok, pr.node,
-           'PathGlob.Result values are {}'.format(vals))
-    for nm, fn_, txt in (('__and__', pr.methods.get('__and__'), 'max('),
-                         ('__or__', pr.methods.get('__or__'), 'min(')):
-        ctx.ob(R, 'PathGlob.Result.' + nm, fn_ is not None and txt in
-               unparse(fn_), fn_ or pr.node, nm + ' changed')
-    ff = repo.func(FIND + '_find_files')
-    pr_ifs = [n for n in ast.walk(ff.node) if isinstance(n, ast.If) and any(
-        'to_remove.append' in unparse(s) for s in n.body)]
-    ok = len(pr_ifs) == 1 and unparse(pr_ifs[0].test) == \
-        'm == FindResult.exclude_recursive'
+    ff = F.fn(FIND + '_find_files')
+    # pruning = mutation of the walk's directory list: `del dirs[i]` for
+    # recorded indices, `dirs[:] = [.. if i not in recorded]`, or
+    # dirs.remove()/pop() -- the recorded set (or the direct mutation) must
+    # depend on `match == exclude_recursive` and on nothing else
+    dels, recorded, direct_mut = [], set(), []
+    for g in F.reach(ff, 2):
+        if not g.module.name.endswith('builtins.find'):
+            continue
+        for n in walk_no_nested(g.node):
+            if isinstance(n, ast.Delete):
+                for t in n.targets:
+                    if isinstance(t, ast.Subscript):
+                        dels.append((t, g))
+                        recorded |= _allocs(F.atoms(t.slice, g))
+            elif isinstance(n, ast.Assign) and any(
+                    isinstance(t, ast.Subscript) and isinstance(
+                        t.slice, ast.Slice) for t in n.targets):
+                for c in ast.walk(n.value):
+                    if isinstance(c, ast.comprehension):
+                        for t in c.ifs:
+                            recorded |= _allocs(F.atoms(t, g))
+    for e in F.effects(ff, lambda e: e.name in ('remove', 'pop'), depth=2):
+        if e.fn.module.name.endswith('builtins.find'):
+            direct_mut.append(e)
+    aps = [e for e in F.effects(ff, lambda e: e.name in ('append', 'add'),
+                                depth=2)
+           if _allocs(e.recv()) & recorded] + direct_mut
+    ok = bool(aps)
+    for e in aps:
+        cmp_ = F.guard_compares(e.call, e.fn)
+        ok = ok and any(op == 'Eq' and (
+            has(l, 'FindResult', 'exclude_recursive') and has_call(
+                r_, 'match') or has(r_, 'FindResult', 'exclude_recursive')
+            and has_call(l, 'match')) for op, l, r_ in cmp_) and \
+            len(F.guards(e.call, e.fn)) == 1
     ctx.ob(R, '_find_files|prune-only-exclude_recursive', ok, ff.node,
            'directories are pruned on a weaker result than '
-           'exclude_recursive')
-    ok = any(isinstance(n, ast.For) and unparse(n.iter) ==
-             'reversed(to_remove)' for n in ast.walk(ff.node))
+           'exclude_recursive (or not at all)')
+    ok = all(has_call(F.atoms(t.slice, g), 'reversed') for t, g in dels)
     ctx.ob(R, '_find_files|prune-by-reverse-index', ok, ff.node,
            'pruned indices are deleted in forward order')
-    # every dir and file of every walked dir is yielded with its match
-    ys = [n for n in ast.walk(ff.node) if isinstance(n, ast.Yield)]
-    ctx.ob(R, '_find_files|yields-bases-dirs-files', len(ys) == 3, ff.node,
-           'not every base/dir/file is reported')
-    fff = repo.func(FIND + 'find_from_filter')
-    branches = [n for n in ast.walk(fff.node) if isinstance(n, ast.If) and
-                unparse(n.test) == 'matched == FindResult.include']
-    ok = len(branches) == 1 and any('results.append(types[' in unparse(s)
-                                    for s in branches[0].body)
-    if ok:
-        el = branches[0].orelse
-        ok = len(el) == 1 and isinstance(el[0], ast.If) and unparse(
-            el[0].test) == 'matched == FindResult.not_now' and any(
-                'extra_types[' in unparse(s) for s in el[0].body) and \
-            not any('results.append' in unparse(s) for s in el[0].body)
+    fff = F.fn(FIND + 'find_from_filter')
+    found, extra = _registrations(F, fff)
+    walk_found = [e for e in found if has_call(e.arg(0), '_find_files')]
+    walk_extra = [e for e in extra if has_call(e.arg(0), '_find_files')]
+    ret = F.returns(fff)
+
+    def eq_member(e, member):
+        return any(op == 'Eq' and (has(l, 'FindResult', member) or
+                                   has(r_, 'FindResult', member))
+                   for op, l, r_ in F.guard_compares(e.call, e.fn))
+    ok = bool(walk_found) and all(eq_member(e, 'include')
+                                  for e in walk_found) and \
+        bool(walk_extra) and all(eq_member(e, 'not_now') and
+                                 not eq_member(e, 'include')
+                                 for e in walk_extra) and \
+        has(ret, "['auto_file']") and not has(ret, "['generic_file']")
     ctx.ob(R, 'find_from_filter|include->results,not_now->dist-only', ok,
            fff.node, 'the include/not_now split changed')
-    ok = unparse(Q.returns(fff.node)[-1].value) == 'results'
-    ctx.ob(R, 'find_from_filter|returns-results', ok, fff.node, '')
     # FileFilter._match_globs: exclude first, then include, then extra
-    mg = repo.method(FIND + 'FileFilter', '_match_globs')
-    rets = [unparse(r.value) for r in sorted(
-        Q.returns(mg.node), key=lambda r: r.lineno)]
-    ok = rets == ['FindResult.exclude_recursive', 'FindResult.include',
-                  'FindResult.not_now', 'FindResult.exclude_recursive',
-                  'FindResult.exclude']
+    mg = F.fn(FIND + 'FileFilter._match_globs')
+    by = {}
+    for r in Q.returns(mg.node):
+        c = F.control(r, mg)
+        for a in F.atoms(r.value, mg):
+            if a.startswith('FindResult.'):
+                by.setdefault(a.split('.')[1], []).append(c)
+    EX, IN, XT = ('exclude', 'match()'), ('include', 'match()'), \
+        ('extra', 'match()')
+    ok = any(has(c, *EX) and not has(c, *IN) and not has(c, *XT)
+             for c in by.get('exclude_recursive', [])) and \
+        all(has(c, *EX) and has(c, *IN) and not has(c, *XT)
+            for c in by.get('include', [])) and bool(by.get('include')) and \
+        all(has(c, *EX) and has(c, *IN) and has(c, *XT)
+            for c in by.get('not_now', [])) and bool(by.get('not_now')) and \
+        all(has(c, *EX) and has(c, *IN) and has(c, *XT)
+            for c in by.get('exclude', [])) and bool(by.get('exclude')) and \
+        any(has(c, *XT) and has(c, 'PathGlob', 'Result', 'never')
+            for c in by.get('exclude_recursive', []))
     ctx.ob(R, 'FileFilter._match_globs|precedence', ok, mg.node,
-           'precedence exclude > include > extra > never > exclude changed: '
-           '{}'.format(rets))
-    m = repo.method(FIND + 'FileFilter', 'match')
-    ok = 'result & self.filter_fn(path)' in unparse(m.node)
+           'precedence exclude > include > extra > never > exclude changed')
+    m = F.fn(FIND + 'FileFilter.match')
+    ands = [n for n in ast.walk(m.node) if isinstance(n, ast.BinOp) and
+            isinstance(n.op, ast.BitAnd)]
+    ok = any(has_call(F.atoms(n.left, m) | F.atoms(n.right, m),
+                      '_match_globs') and
+             has(F.atoms(n.left, m) | F.atoms(n.right, m), 'filter_fn()')
+             for n in ands)
     ctx.ob(R, 'FileFilter.match|filter-combined-with-&', ok, m.node,
            'the filter function result is not combined with & (max)')
-    fp = repo.func(FIND + 'find_paths')
-    ok = "[i.path for i in context['find_files'](*args, **kwargs)]" in \
-        unparse(fp.node)
+    fp = F.fn(FIND + 'find_paths')
+    ok = has(F.returns(fp), "['find_files']", 'path')
     ctx.ob(R, 'find_paths|via-find_files', ok, fp.node,
            'find_paths does not go through find_files')
 
 
+# --------------------------------------------------------------------------
 def source_registration(ctx):
     R = 'SOURCE-REGISTRATION'
     ctx.rule(R, 'every builtin that creates a file object from a name goes '
-             'through static_file with the caller\'s dist flag; static_file '
-             'and Edge.make are the only callers of add_source and guard on '
-             'Root.srcdir; the dist command lists build_inputs.sources() '
-             'relative to srcdir')
+             'through static_file with the caller\'s dist flag; every '
+             'add_source call is restricted to source-directory files, and '
+             'static_file and Edge (extra_deps) perform one; the dist '
+             'command lists build_inputs.sources() relative to srcdir')
     repo = ctx.repo
-    sf = repo.func('bfg9000.builtins.file_types:static_file')
-    # who calls add_source
-    callers = []
+    F = _facts(ctx)
+    sf = F.fn('bfg9000.builtins.file_types:static_file')
+    n_sites = 0
     for m, c in Q.all_calls(repo):
-        if Q.callee_attr(c) == 'add_source':
-            callers.append((m, c))
-    for m, c in callers:
+        if Q.callee_attr(c) != 'add_source':
+            continue
         fn = repo.enclosing_func(c)
-        ok = fn is not None and fn.fq in (
-            'bfg9000.builtins.file_types:static_file',
-            'bfg9000.build_inputs:Edge.__init__.make')
-        ctx.ob(R, 'add_source-caller|' + (fn.fq if fn else m.name), ok, c,
-               'add_source is called outside static_file / Edge.make')
-        # guard on srcdir
-        p = c
-        guarded = False
-        while p is not None:
-            if isinstance(p, ast.If) and 'Root.srcdir' in unparse(p.test):
-                guarded = True
-            p = getattr(p, '_parent', None)
-        ctx.ob(R, 'add_source-guard|' + (fn.fq if fn else m.name), guarded,
-               c, 'add_source is not restricted to source-directory files')
-    have = {repo.enclosing_func(c).fq for m, c in callers
-            if repo.enclosing_func(c) is not None}
-    for want, what in (
+        if fn is None:
+            continue
+        n_sites += 1
+        cmps = F.guard_compares(c, fn)
+        guarded = any(op == 'Eq' and (
+            has(l, 'root') and has(r_, 'Root', 'srcdir') or
+            has(r_, 'root') and has(l, 'Root', 'srcdir'))
+            for op, l, r_ in cmps)
+        ctx.ob(R, 'add_source-guard|' + fn.fq, guarded, c,
+               'add_source is not restricted to source-directory files')
+    for want, what, depth in (
             ('bfg9000.builtins.file_types:static_file', 'files named by the '
-             'script'),
-            ('bfg9000.build_inputs:Edge.__init__.make', 'extra_deps given as '
-             'names')):
-        ctx.ob(R, 'add_source-site|' + want, want in have, None,
+             'script', 1),
+            ('bfg9000.build_inputs:Edge.__init__', 'extra_deps given as '
+             'names', 2)):
+        f = F.fn(want)
+        ok = bool(F.calls_to(f, 'add_source', depth=depth))
+        ctx.ob(R, 'add_source-site|' + want, ok, f.node,
                '{} no longer registers {} as sources of the distribution'
                .format(want.split(':')[1], what))
-    g = [n for n in walk_no_nested(sf.node) if isinstance(n, ast.If) and
-         'dist' in unparse(n.test) and 'Root.srcdir' in unparse(n.test)]
-    ok = len(g) == 1 and unparse(g[0].test) == \
-        'dist and path.root == Root.srcdir'
+    # only objects freshly created from a name are registered: an existing
+    # file object already went through a builtin that honoured its dist flag
+    import re as _re
+    for want in ('bfg9000.builtins.file_types:static_file',
+                 'bfg9000.build_inputs:Edge.__init__'):
+        f = F.fn(want)
+        for e in F.calls_to(f, 'add_source', depth=2):
+            d = {a for a in direct(e.arg(0))
+                 if not a.startswith(('const:', 'key:'))}
+            fresh = bool(d) and all(_re.match(r'^[\w.]+\(.*\)$', a)
+                                    for a in d)
+            ctx.ob(R, 'add_source-fresh-object|' + e.fn.fq, fresh, e.call,
+                   'add_source is applied to an object that was not created '
+                   'here from a name ({}): the dist flag its creator '
+                   'honoured is overridden'.format(sorted(d)[:4]))
+    adds = F.calls_to(sf, 'add_source', depth=1)
+    ok = bool(adds) and all(param_of(e.control(), 'dist') for e in adds)
     ctx.ob(R, 'static_file|dist-and-srcdir', ok, sf.node,
-           'registration is not exactly "dist and path.root == srcdir"')
+           'registration does not depend on the dist flag')
     # builtins decorated with @builtin.type(<File class>) that take a name
     n = 0
     for fi in sorted(repo.functions.values(), key=lambda f: f.fq):
@@ -501,27 +628,20 @@ def source_registration(ctx):
         if not any(d.startswith('builtin.type(') for d in decs) or not any(
                 d.startswith('builtin.function(') for d in decs):
             continue
-        sfc = [c for c in Q.calls(fi.node) if unparse(c.func) ==
-               'static_file']
-        params = Q.params(fi.node)
+        sfc = F.calls_to(fi, 'static_file', depth=1)
         if not sfc:
-            # creates files only from other objects (copy_file, object_files,
-            # generated_source, man_page handled through static_file ...)
             continue
         n += 1
-        for c in sfc:
-            d = Q.arg(c, 3, 'dist')
-            ok = d is not None and unparse(d) == 'dist'
-            ctx.ob(R, '{}|forwards-dist'.format(fi.fq), ok, c,
-                   '{} does not forward the caller\'s dist flag to '
-                   'static_file'.format(fi.qualname))
-        # dist comes from the caller (kw-only param or kwargs.pop)
-        has = 'dist' in params or any(
-            unparse(v) == "kwargs.pop('dist', True)"
-            for v in Q.local_assignments(fi.node, 'dist') if v is not None)
-        ctx.ob(R, '{}|accepts-dist'.format(fi.fq), has, fi.node,
-               '{} does not accept dist='.format(fi.qualname))
-    ctx.require_min(R, n, 12, 'file-creating builtins')
+        ok = all(param_of(direct(e.arg(3, kw='dist')), 'dist') or
+                 (has_const(e.arg(3, kw='dist'), 'dist') and
+                  param_of(e.arg(3, kw='dist'), 'kwargs'))
+                 for e in sfc)
+        ctx.ob(R, '{}|forwards-dist'.format(fi.fq), ok, fi.node,
+               '{} does not forward the caller\'s dist flag to '
+               'static_file'.format(fi.qualname))
+    ctx.ob(R, 'file-creating-builtins|found', n >= 6, None,
+           'only {} builtins creating files through static_file were found '
+           '(the rule would pass vacuously)'.format(n))
     # every builtin that accepts dist= forwards it to the helpers that
     # register files (_find, find_from_filter, static_file)
     for fi in sorted(repo.functions.values(), key=lambda f: f.fq):
@@ -529,41 +649,51 @@ def source_registration(ctx):
             continue
         if 'dist' not in Q.params(fi.node):
             continue
-        for c in Q.calls(fi.node, nested=False):
-            nm = unparse(c.func)
-            if nm in ('_find', 'find_from_filter', 'static_file'):
-                d = Q.kwarg(c, 'dist')
-                if d is None and nm == 'static_file':
-                    d = Q.arg(c, 3, 'dist')
-                ok = d is not None and unparse(d) == 'dist'
-                ctx.ob(R, '{}|{}-forwards-dist'.format(fi.fq, nm), ok, c,
-                       '{} accepts dist= but calls {} without forwarding '
-                       'it: files of a dist=False object are shipped (or '
-                       'the reverse)'.format(fi.qualname, nm))
-    # header_directory / directory register their files
-    for fq in ('bfg9000.builtins.file_types:directory',
-               'bfg9000.builtins.file_types:header_directory'):
-        if repo.has_func(fq):
-            f = repo.func(fq)
-            ok = any(unparse(c.func) == 'static_file' for c in
-                     Q.calls(f.node))
-            ctx.ob(R, fq.split(':')[1] + '|static_file', ok, f.node, '')
-    srcs = repo.method('bfg9000.build_inputs:BuildInputs', 'sources')
-    t = unparse(Q.returns(srcs.node)[0].value)
-    ok = 'self.bootstrap_paths' in t and 'self._sources.values()' in t
+        for e in F.effects(fi, lambda e: e.name in (
+                '_find', 'find_from_filter', 'static_file'), depth=0):
+            d = e.arg(kw='dist')
+            if not d and e.name == 'static_file':
+                d = e.arg(3)
+            ok = param_of(direct(d), 'dist')
+            ctx.ob(R, '{}|{}-forwards-dist'.format(fi.fq, e.name), ok,
+                   e.call, '{} accepts dist= but calls {} without '
+                   'forwarding it: files of a dist=False object are shipped '
+                   '(or the reverse)'.format(fi.qualname, e.name))
+    srcs = F.fn('bfg9000.build_inputs:BuildInputs.sources')
+    r = F.returns(srcs)
+    ok = has(r, 'bootstrap_paths') and has(r, '_sources')
     ctx.ob(R, 'BuildInputs.sources|bootstrap+sources', ok, srcs.node,
-           'sources() is {}'.format(t))
-    dc = repo.func('bfg9000.builtins.dist:_dist_command')
-    ok = '[i.path.relpath(srcdir) for i in build_inputs.sources()]' in \
-        unparse(dc.node) and 'directory=srcdir' in unparse(dc.node)
+           'sources() does not consist of the bootstrap files and the '
+           'registered sources')
+    asrc = F.fn('bfg9000.build_inputs:BuildInputs.add_source')
+    ok = any(has(t, '_sources') and param_of(v, Q.params(asrc.node)[1])
+             for t, v, n_ in F.stores(asrc)) or any(
+        has(e.recv(), '_sources') for e in F.effects(
+            asrc, lambda e: e.name in ('append', 'add', 'setdefault',
+                                       'update'), depth=0))
+    ctx.ob(R, 'BuildInputs.add_source|stores', ok, asrc.node,
+           'add_source does not record the source')
+    dc = F.fn('bfg9000.builtins.dist:_dist_command')
+    arch = [e for e in F.effects(dc, lambda e: has(
+        e.heads(), "tool('doppel')"), depth=1)]
+    srcdir_ok = ok = bool(arch)
+    for e in arch:
+        a = e.all_args()
+        ok = ok and has(a, 'sources()', 'path', 'relpath()') and \
+            not has_call(e.arg(1), 'if') and not has_call(e.arg(1), 'filter')
+        d = e.arg(kw='directory')
+        srcdir_ok = srcdir_ok and has(d, 'Root', 'srcdir') and \
+            has_const(d, '.')
     ctx.ob(R, '_dist_command|all-sources-relative-to-srcdir', ok, dc.node,
            'the archive command does not list every source relative to the '
            'source directory')
-    vals = [unparse(v) for v in Q.local_assignments(dc.node, 'srcdir')
-            if v is not None]
-    ctx.ob(R, '_dist_command|srcdir', vals == ["Path('.', Root.srcdir)"],
-           dc.node, 'archive base directory is {}'.format(vals))
-    ed = repo.func('bfg9000.builtins.dist:extra_dist')
-    ok = "context['generic_file'](i)" in unparse(ed.node) and \
-        "context['directory'](i, include='*')" in unparse(ed.node)
-    ctx.ob(R, 'extra_dist|registers', ok, ed.node, '')
+    ctx.ob(R, '_dist_command|srcdir', srcdir_ok, dc.node,
+           'archive base directory is not the source directory')
+    ed = F.fn('bfg9000.builtins.dist:extra_dist')
+    effs = F.effects(ed, lambda e: True, depth=0)
+    ok = any(has(e.heads(), "['generic_file']") and param_of(
+        e.arg(0), 'files') for e in effs) and any(
+        has(e.heads(), "['directory']") and param_of(e.arg(0), 'dirs')
+        for e in effs)
+    ctx.ob(R, 'extra_dist|registers', ok, ed.node,
+           'extra_dist does not register its files/dirs')
